@@ -382,14 +382,12 @@ class DataProviderLinked(DataProvider):
         int
             The aligned index.
         """
-        diff = target_axis - index
-
         if method == "forward":
-            diff = diff[diff >= 0]
+            target_axis = target_axis[target_axis >= index]
         elif method == "backward":
-            diff = diff[diff <= 0]
+            target_axis = target_axis[target_axis <= index]
 
-        diff = np.abs(diff)
+        diff = np.abs(target_axis - index)
 
         if len(diff) > 0 and diff.min() <= tolerance:
             index = target_axis[diff.argmin()]
